@@ -102,7 +102,13 @@ func H_C09_mark() {
 // H_C09_relabel: QERs already stored keep their level when other QERs are
 // processed: a second MarkSessionQer call over a different list (the QERs of
 // the current message, as the handlers do) marks the same id or none.
-func H_C09_twocalls() {
+func H_C09_twocalls() { vC09TwoCalls(false) }
+
+// H_C09_partial: H_C09_twocalls followed by a later message that carries only
+// some of the session's QERs (run with the quick bounds in both tiers).
+func H_C09_partial() { vC09TwoCalls(true) }
+
+func vC09TwoCalls(partial bool) {
 	s, _, qers := vSessionForQer()
 	s.qers = append(s.qers, qers...)
 	msg := make([]qer, len(qers))
@@ -127,7 +133,7 @@ func H_C09_twocalls() {
 	vCover("two")
 	// a later message (a modification) carries only SOME of the session's QERs,
 	// in its own order: each of them is labelled exactly as the stored one is
-	if n := len(qers); n > 0 {
+	if n := len(qers); partial && n > 0 {
 		rot, keep := vChoose("msg_rotation", n), 1+vChoose("msg_len", n)
 		var part []qer
 		for k := 0; k < keep; k++ {
